@@ -35,3 +35,29 @@ Theorem C02_new_operation_truncates :
   log St (spec_step St Df sp (Do s' dl)) = rev (before St sp) ++ [cur St sp; s'].
 Proof. exact new_operation_truncates. Qed.
 Print Assumptions C02_new_operation_truncates.
+
+(* k undos followed by j <= k redos after ANY valid history: the workbook is the state
+   k - j places before the original cursor — redo walks forward through exactly the states
+   undo walked back through. *)
+From IronCalc Require Import UserModel.WalkBack.
+
+Theorem C02_walk_back_then_forward :
+  forall (St Df : Type) (apply unapply : Df -> St -> St) s0 es k j,
+  valid St Df apply unapply (init St Df s0) es ->
+  k <= cursor St (spec_run St Df (spec_init St s0) es) -> j <= k ->
+  let sp := spec_run St Df (spec_init St s0) es in
+  st St Df (run St Df apply unapply (run St Df apply unapply (init St Df s0) es) (repeat Undo k ++ repeat Redo j))
+  = nth (cursor St sp - k + j) (log St sp) s0.
+Proof. exact walk_back_then_forward. Qed.
+Print Assumptions C02_walk_back_then_forward.
+
+(* non-vacuity on the snapshot-identifier instance: three operations, two undos, one redo *)
+From Coq Require Import ZArith.
+From IronCalc Require Import UserModel.HistoryId.
+Example C02_walk_nonvacuous :
+  let es := [Do 1%Z [(0, 1)%Z]; Do 2%Z [(1, 2)%Z]; Do 3%Z [(2, 3)%Z]] in
+  valid Z idiff id_apply id_unapply (init Z idiff 0%Z) es /\
+  (2 <= cursor Z (spec_run Z idiff (spec_init Z 0%Z) es))%nat /\
+  st Z idiff (run Z idiff id_apply id_unapply (run Z idiff id_apply id_unapply (init Z idiff 0%Z) es)
+                  (repeat Undo 2 ++ repeat Redo 1)) = 2%Z.
+Proof. vm_compute. repeat split; auto. Qed.
